@@ -532,7 +532,7 @@ class Engine:
             return base.vc_getattr(self, st, attr)
         if isinstance(base, ModVal):
             return self.resolve_qualified(base.name, attr)
-        if isinstance(base, FuncVal) and base.kind == "class":
+        if isinstance(base, FuncVal) and base.kind in ("class", "exc"):
             key = base.key
             if key in self.reg.enums:
                 ety = self.reg.enums[key]
@@ -736,16 +736,25 @@ class Engine:
                     results = bind(results, step)
                 return bind(results, lambda s2, vs: [(OK, s2, ListVal(vs))])
             if isinstance(it, Val) and isinstance(it.ty, SeqT):
-                kk = z3.Int(fresh_name("lc"))
+                # element-wise image: the result holds exactly the images of the elements (stated over element sets;
+                # multiplicity and order are not tracked at this level)
+                xq = z3.Const(fresh_name("lcx"), it.ty.elem.sort())
                 s2 = s.fork()
-                res = bind(self.assign_target(g.target, Val(it.term[kk], it.ty.elem), s2), lambda s3, _v: self.eval(node.elt, s3))
+                s2.ghost["$lc_index"] = z3.IntVal(0)
+                res = bind(self.assign_target(g.target, Val(xq, it.ty.elem), s2), lambda s3, _v: self.eval(node.elt, s3))
                 if len(res) != 1 or res[0][0] != OK or not isinstance(res[0][2], Val):
                     raise Unsupported("branching list comprehension body")
                 elt = res[0][2]
+                for extra_fact in res[0][1].pc[len(s.pc):]:
+                    s.assume(z3.ForAll([xq], extra_fact))   # facts the element expression's contract gives for every element
                 rty = SeqT(elt.ty)
                 r = z3.Const(fresh_name("lcres"), rty.sort())
+                src_set = ops.seq_elems(it.term, it.ty.elem.sort())
+                dst_set = ops.seq_elems(r, elt.ty.sort())
+                yq = z3.Const(fresh_name("lcy"), elt.ty.sort())
                 s.assume(z3.Length(r) == z3.Length(it.term))
-                s.assume(z3.ForAll([kk], z3.Implies(z3.And(kk >= 0, kk < z3.Length(it.term)), r[kk] == elt.term)))
+                s.assume(z3.ForAll([xq], z3.Implies(z3.Select(src_set, xq), z3.Select(dst_set, elt.term))))
+                s.assume(z3.ForAll([yq], z3.Implies(z3.Select(dst_set, yq), z3.Exists([xq], z3.And(z3.Select(src_set, xq), elt.term == yq)))))
                 return [(OK, s, Val(r, rty))]
             raise Unsupported(f"list comprehension over {it!r}")
         return bind(self.eval(g.iter, st), k)
